@@ -15,7 +15,7 @@ getcontext().prec = 50
 
 ID = "C19"
 RULE = ("parameter points: exponential a in (0.01,5], poisson mean in (0.05,30] (k<=120), power law alpha in [2,6], "
-        "cut-off power law alpha in [2,6] x kappa in [0.5,500]; grids (incl. alpha=2, large kappa) + seeded random; plus call histories: 4..8 callables created up front with near-equal, integer and repeated "
+        "cut-off power law alpha in [2,6] x kappa in [0.02,500] (log-uniform; kappa below 1/ln(1e6), where even the first series term is below 1e-6, included); grids (incl. alpha=2, large kappa) + seeded random; plus call histories: 4..8 callables created up front with near-equal, integer and repeated "
         "parameters and evaluated interleaved; "
         "one case = one parameter point evaluated over its whole summed support; every point is non-trivial; "
         "distinct = SHA-1 of (distribution, parameters)")
@@ -39,8 +39,8 @@ def gen_cases(tier, seed):
         cases.append({"dist": "poisson", "params": [m]})
     for al in [2.0, 2.0 + 1e-9, 2.5, 3.0, 4.0, 6.0] + [rng.uniform(2, 6) for _ in range(n - 6)]:
         cases.append({"dist": "power_law", "params": [al], "_cost": 3})
-    grid = [(2.0, 500.0), (2.0, 0.5), (6.0, 500.0), (3.0, 10.0), (2.5, 100.0), (2.0, 50.0)]
-    for al, ka in grid + [(rng.uniform(2, 6), math.exp(rng.uniform(math.log(0.5), math.log(500)))) for _ in range(n - 6)]:
+    grid = [(2.0, 500.0), (2.0, 0.5), (6.0, 500.0), (3.0, 10.0), (2.5, 100.0), (2.0, 50.0), (2.0, 0.03), (4.0, 0.07), (3.0, 0.073), (2.5, 0.2)]
+    for al, ka in grid + [(rng.uniform(2, 6), math.exp(rng.uniform(math.log(0.02), math.log(500)))) for _ in range(n - 10)]:
         cases.append({"dist": "scale_free_cut_off", "params": [al, ka], "_cost": 3})
     # call histories: many callables created up front (near-equal parameters, ints, repeats), evaluated interleaved
     nh = 8 if tier == "quick" else 200
@@ -175,7 +175,8 @@ def check_point(res, dist, params):
         al, ka = params
         terms = list(polylog_terms(al, ka))
         L = sum(t for _, t in terms)
-        tau = sum(t for _, t in terms if t < D(TOL_SERIES))
+        # every series keeps its first term; what a "drop terms below 1e-6" rule can lose is the rest of the small terms
+        tau = sum(t for k_, t in terms if t < D(TOL_SERIES) and k_ > 1)
         tol = float(D("1.5") * tau / L) + 1e-12
         K = min(len(terms), 12000)
         vals = []
@@ -211,7 +212,7 @@ def run_history(res, seed):
         elif dist == "power_law":
             par = [rng.choice([2, 2.0, 2.0000001, 2.5, 3, rng.uniform(2, 6)])]
         else:
-            par = [rng.choice([2, 2.0, 2.5, rng.uniform(2, 6)]), rng.choice([5, 5.0, 5.0000001, 50.0, rng.uniform(0.5, 500)])]
+            par = [rng.choice([2, 2.0, 2.5, rng.uniform(2, 6)]), rng.choice([5, 5.0, 5.0000001, 50.0, 0.05, rng.uniform(0.5, 500)])]
         objs.append((dist, par, sut(f"{dist}{tuple(par)}", getattr(gcmpy, dist), *par)))
     res.count("history_callables", len(objs))
     exact = {}
@@ -238,7 +239,7 @@ def run_history(res, seed):
                 al, ka = float(par[0]), float(par[1])
                 terms = list(polylog_terms(al, ka))
                 L = sum(t for _, t in terms)
-                tau = sum(t for _, t in terms if t < D(TOL_SERIES))
+                tau = sum(t for k_, t in terms if t < D(TOL_SERIES) and k_ > 1)
                 tab = dict(terms)
                 exact[key] = (lambda kk, tab=tab, L=L, al=al, ka=ka: (tab[kk] if kk in tab else (-(D(kk) / D(ka)) - D(al) * D(kk).ln()).exp()) / L,
                               float(D("1.5") * tau / L) + 2e-11)
